@@ -955,6 +955,15 @@ static QByteArray generateNonce()
     return nonce.toBase64();
 }
 
+// RFC 5802 5.1: ',' and '=' in a user name are sent as "=2C" and "=3D"
+static QByteArray scramSaslName(const QString &username)
+{
+    auto name = username.toUtf8();
+    name.replace('=', QByteArrayLiteral("=3D"));
+    name.replace(',', QByteArrayLiteral("=2C"));
+    return name;
+}
+
 static QMap<char, QByteArray> parseGS2(const QByteArray &ba)
 {
     QMap<char, QByteArray> map;
@@ -1229,7 +1238,7 @@ std::optional<QByteArray> QXmppSaslClientScram::respond(const QByteArray &challe
 {
     if (m_step == 0) {
         m_gs2Header = QByteArrayLiteral("n,,");
-        m_clientFirstMessageBare = QByteArrayLiteral("n=") + username().toUtf8() + QByteArrayLiteral(",r=") + m_nonce;
+        m_clientFirstMessageBare = QByteArrayLiteral("n=") + scramSaslName(username()) + QByteArrayLiteral(",r=") + m_nonce;
 
         m_step++;
         return m_gs2Header + m_clientFirstMessageBare;
